@@ -15,7 +15,7 @@ SPEC = "Literals"
 TLC_ENV = {"JAVA_TOOL_OPTIONS": "-Xss512m" + (" -XX:TieredStopAtLevel=1 -XX:ParallelGCThreads=2" if vf.TIER != "thorough" else " -XX:ParallelGCThreads=4")}
 NAMED = {"<TAB>": "\t", "<LF>": "\n", "<CR>": "\r"}
 CTX_ORDER = ["arg", "var", "paren", "neg"]
-BATCH = 150
+BATCH = 150 if vf.TIER != "thorough" else 400      # cases per generated ego program
 
 
 # ---------------------------------------------------------------- projection: atoms -> source text, printed line -> fields
@@ -314,7 +314,8 @@ def run():
     with vf.scratch() as sd, ThreadPoolExecutor(max_workers=6) as pool:
         # 1-3 run side by side: design MC, its negative control, the case generator, and the build of the real binary
         f_mc = pool.submit(vf.tlc, SPEC, "Literals_MC", "Literals_MC.cfg" if thorough else "Literals_MCq.cfg", sd,
-                           workers=6 if thorough else 3, timeout=1500, env=TLC_ENV)
+                           workers=6 if thorough else 3, timeout=2400, env=TLC_ENV)
+        f_mc2 = pool.submit(vf.tlc, SPEC, "Literals_MC", "Literals_MCq.cfg", sd, workers=2, timeout=2400, env=TLC_ENV) if thorough else None
         f_nc = pool.submit(vf.tlc, SPEC, "Literals_MC", "Literals_MC_asis.cfg", sd, workers=1, timeout=600, env=TLC_ENV)
         f_gen = pool.submit(vf.tlc, SPEC, "Literals_Gen", "Literals_Gen.cfg" if thorough else "Literals_Genq.cfg", sd,
                             workers=6 if thorough else 3, timeout=1500, env=TLC_ENV)
@@ -376,6 +377,7 @@ def run():
         # 5. ego
         ego = f_ego.result()
         env = vf.ego_env(sd)
+        env["GOMAXPROCS"] = "2"     # the programs are sequential; many processes run side by side
         lap("build ego")
         eobs = {m: run_ego(ego, env, sd, per_mode[m], m, m, stats) for m in modes}
         total = sum(len(per_mode[m]) for m in modes)
@@ -396,6 +398,8 @@ def run():
         # design results and the cross-check must be in before anything is called a violation
         r = vf.tlc_ok(f_mc.result(), "Literals MC")
         chk.add_tlc(r, "MC: derivation = recogniser over all strings; radix round trip; separators ignored; float rounding of small integers")
+        if f_mc2:
+            chk.add_tlc(vf.tlc_ok(f_mc2.result(), "Literals MC (13-symbol alphabet, L=4)"), "MC: the same over the 13-symbol alphabet, L=4")
         rn = f_nc.result()
         if rn.violated != "AgreeBroken":
             raise vf.NoVerdict("negative control: grammar without prefix separator was not rejected (%s %s)" % (rn.violated, rn.error))
